@@ -1217,7 +1217,8 @@ impl<'a> TokenBasedLuaGenerator<'a> {
 
         if let Some(variadic_argument_type) = function_type.get_variadic_argument_type() {
             if argument_len > 0 {
-                if let Some(comma) = tokens.commas.get(argument_len) {
+                // the commas between the arguments come first
+                if let Some(comma) = tokens.commas.get(argument_len - 1) {
                     self.write_token(comma);
                 } else {
                     self.write_symbol(",");
@@ -1272,7 +1273,7 @@ impl<'a> TokenBasedLuaGenerator<'a> {
             self.write_generic_type_pack(generic_type_pack);
 
             if (i + type_variables_len) < last_index {
-                if let Some(comma) = tokens.commas.get(i) {
+                if let Some(comma) = tokens.commas.get(i + type_variables_len) {
                     self.write_token(comma);
                 } else {
                     self.write_symbol(",");
